@@ -16,7 +16,7 @@ RULE = ("well-formed: index lists of length 0..5 over [0,2^32) with edge values,
         "with and without marker) applied at every level 1..5; deep: well-formed paths of 6..12 levels; lenient: spellings "
         "Python's int() accepts (+5, ' 7', 1_0, non-ASCII digits, trailing '/') judged for value only; distinct = distinct "
         "(monitor, case) digests"
-        " EXTENSIONS: + all two- and three-marker suffix combinations, well-formed twins (case / NFKC / stripped spellings) looked up before the malformed string, wallets imported at depth d (private and watch-only), every refusal repeated three times")
+        " EXTENSIONS: + all two- and three-marker suffix combinations, well-formed twins (case / NFKC / stripped spellings) looked up before the malformed string, wallets imported at depth d (private and watch-only), every refusal repeated three times, out-of-range numbers dressed the way int() tolerates")
 LEVEL_TEXT = ("Each Bip32Path.parse / str / by_path / str(node) execution is compared with an own strict recursive-descent "
               "parser and the reference derivation; malformed strings must make by_path raise (a returned node is the "
               "violation); paths deeper than five levels must raise or yield the node of the FULL path.")
@@ -218,7 +218,12 @@ JUNK = ["5" + a + b for a in MARKS for b in MARKS] + ["5" + a + b + c for a in "
         "1 2", "true", "0o7", "1__0", "_1", "1_"]
 LENIENT = ["+5", " 7", "7 ", "007", "1_0", "٥", "５", "+0'", " 3'", "1_000h", "-0"]
 BADNUM = ["-1", "-5", "-1'", "-5h", "-2147483648'", "2147483648'", "2147483649h", "4294967295'", "4294967296", "4294967296'",
-          "99999999999999999999", "99999999999999999999'", "-99999999999999999999'"]
+          "99999999999999999999", "99999999999999999999'", "-99999999999999999999'",
+          # out-of-range numbers DRESSED the way int() tolerates (blanks around the number / the sign, '+', '_', other digit scripts):
+          # a range test written on the text ('startswith("-")', len(), isdigit()) and int() disagree on these
+          " -1'", "\t-5h", " -2147483648h", "-1 '", " -1", "-1 ", "\n-7'", "-1_0'", "-\u0665'", "-\u0661h", " -2147483647'",
+          "+2147483648'", " 2147483648'", "2147483648 '", "4294967296 ", " 4294967296", "+4294967296", "4_294_967_296", "2_147_483_648'",
+          "\u0662\u0661\u0664\u0667\u0664\u0668\u0663\u0666\u0664\u0668'", " -99999999999999999999h"]
 ROOTS = ["x", "", "mm", "n", " m", "m ", "Mm", "1", "m'", "/", "µ", "\uff4d", "\u217f", "\uff2d", "\u216f", "\U0001d426", "m44'", "m0", "master", "M0",
          "m\u200b", "\u043c"]
 
@@ -306,8 +311,29 @@ def run(ctx):
         L = rnd.randrange(6, 13)
         lst = [rnd.choice([0, 1, 2, H, H + 1]) if rnd.random() < 0.5 else rnd.randrange(0, 1 << 32) for _ in range(L)]
         judge_deep(ctx, {"seed": seed, "testnet": tn, "list": lst, "s": spell(rnd, lst, "m")})
+    # K+3 distinct requests per harvested threshold K, then a second look at the earliest answers (vpkg.longrun.ask_again)
+    from .. import longrun
+    longrun.histories(ctx, "history", "C17", history_specs(), first_job=2)
+    ctx.extra["harvested_thresholds"] = longrun.thresholds()
+
+
+def history_specs():
+    from btc_hd_wallet.wallet_utils import Bip32Path
+
+    def lst(j):
+        return [(44, 49, 84)[j % 3] + H, (j >> 20) + H, ((j >> 10) & 1023) + H, j & 1, j]
+
+    def text(j):
+        return rpath.fmt(lst(j), "m") if j % 4 else rpath.fmt(lst(j), "m").replace("'", "h")
+    return [("Bip32Path.parse", lambda s: (Bip32Path.parse(s).to_list(), str(Bip32Path.parse(s))), lambda j: (text(j), (lst(j), rpath.fmt(lst(j), "m"))))]
 
 
 def replay(ctx, monitor, case):
+    if monitor == "history":
+        from .. import longrun
+        for name, fn, make in history_specs():
+            if name == case["function"]:
+                longrun.ask_again(ctx, "history", "C17", name, fn, make, case["n"], case["k"])
+        return
     {"parse_format": judge_parse_format, "by_path": judge_by_path, "malformed": judge_malformed, "lenient": judge_lenient,
      "deep": judge_deep}[monitor](ctx, case)
